@@ -13,7 +13,7 @@ TNext == \/ IsEvent("CCall")      /\ CCallCb(Rec[l].f, Rec[l].v, "mr" \in DOMAIN
          \/ IsEvent("CReturn")    /\ CReturn(Rec[l].f, Rec[l].v)
          \* the refusal itself is internal to the binding: compose Reject . CReturn when the caller reports the Utf8Error arm
          \/ (IsEvent("CReturn") /\ stack # <<>> /\ ~rejected /\ Rec[l].v = "err(utf8)"
-               /\ (IF stack = <<>> THEN FALSE ELSE (Top.phase = "called" /\ Top.mr /\ Top.f = Rec[l].f))
+               /\ (IF stack = <<>> THEN FALSE ELSE (Top.phase = "called" /\ Top.mr /\ Top.f = Rec[l].f /\ Top.cbs = {}))
                /\ Pop /\ UNCHANGED <<rejected, entered>>)
          \/ IsEvent("CbInvoke")   /\ CbCall(Rec[l].f, Rec[l].v)
          \/ IsEvent("CbDrop")     /\ CbDrop(Rec[l].f)
